@@ -72,7 +72,7 @@ def se_selector(ctx, rep):
             rep.check(not changes and not stores, "SE2", "silent-when-equal", ctx.where(b), "equal: no callback, stored value unchanged", "equal: %d on_change call(s), %d store(s)" % (len(changes), len(stores)))
         # SE3: compare-deliver-store under the lock
         for e in eqs + changes:
-            may, must = lr.held_at(e.bb)
+            may, must = ctx.held_for_event(e)
             rep.check(lock in must, "SE3", "atomic-compare-deliver-store:%s" % e.ck.split("::")[-1], ctx.where(b, e.bb), "runs with %s held" % lock, "runs without %s: two notifications can interleave between compare and store" % lock)
         for e in stores:
             may, must = lr.held_at(e.bb, e.idx)
@@ -166,7 +166,7 @@ def it_iterator(ctx, rep):
     rep.note_fn(it.path)
     p = ctx.paths(it).paths[0]
     calls = [e for e in p.calls() if e.site is not None and ctx.prog.callee_body(e.site) is not None]
-    good = len(calls) == 1 and len(calls[0].args) >= 3 and str(calls[0].args[1][1]).startswith("1_") and calls[0].args[2][0] == "agg" and calls[0].args[2][1].endswith("BackpressurePolicy::BlockOnFull")
+    good = len(calls) == 1 and len(calls[0].args) >= 3 and str(ctx.const_lit(calls[0].args[1])[1]).startswith("1_") and calls[0].args[2][0] == "agg" and calls[0].args[2][1].endswith("BackpressurePolicy::BlockOnFull")
     rep.check(good, "IT1", "iter-is-capacity-1-blocking", ctx.where(it), "iter() = capacity 1, BlockOnFull (lossless rendezvous)", "iter() passes %s" % [term_str(a) for e in calls for a in e.args])
     inner = ctx.prog.callee_body(calls[0].site) if calls else None
     if inner is not None:
@@ -373,7 +373,7 @@ def ch_channeled(ctx, rep):
     sd = A.method("StoreImpl", "subscribed")
     p = ctx.paths(sd).paths[0]
     calls = [e for e in p.calls() if e.site is not None and ctx.prog.callee_body(e.site) is not None and ctx.prog.callee_body(e.site).path == sw.path]
-    good = len(calls) == 1 and calls[0].args[1] == ("const", "store::DEFAULT_CAPACITY", "usize") and calls[0].args[2][0] == "agg" and calls[0].args[2][1].endswith("BackpressurePolicy::BlockOnFull") and calls[0].args[3] == ("param", 2)
+    good = len(calls) == 1 and ctx.const_lit(calls[0].args[1])[1] == ctx.const_lit(("const", "store::DEFAULT_CAPACITY", "usize"))[1] and calls[0].args[2][0] == "agg" and calls[0].args[2][1].endswith("BackpressurePolicy::BlockOnFull") and calls[0].args[3] == ("param", 2)
     rep.check(good, "R5", "subscribed-defaults", ctx.where(sd), "subscribed() = subscribed_with(DEFAULT_CAPACITY, BlockOnFull, subscriber)", "subscribed() passes %s" % [term_str(a) for e in calls for a in e.args])
     # the channel of subscribed_with uses the caller's capacity and policy
     ctor = [e for e in evs.values() if A.is_chan_ctor_call(e.site)]
@@ -389,7 +389,7 @@ def ch_channeled_release(ctx, rep):
     cr_sites = [s for s in ctx.prog.sites() if s.ck in THREAD_JOIN]
     rep.floor("R2", "thread joins", len(cr_sites), 1)
     for js in cr_sites:
-        b = ctx.helper_root(js.body)
+        b = ctx.helper_root(js.body, need=lambda reach: ctx.reach_has_site(reach, lambda x: x.ck == "std::option::Option::take" and any(st[0] == "field" and st[2] == A.f_ch_tx for st in subterms(ctx.prog.bp(x.body).arg_term(x.bb, 0)))))
         rep.note_fn(b.path)
         rep.note_fn(js.body.path)
         pe = ctx.paths(b, inline=True)
